@@ -248,6 +248,11 @@ func runLint(runner *Runner, rslv resolver.Resolver) error {
 		}
 	}
 
+	// JSON mode prints the parse errors as part of the document above, the run has failed all the same
+	if result.err != nil {
+		return ErrExit
+	}
+
 	write(red, ":fire:%d errors, ", result.Errors)
 	write(yellow, ":exclamation:%d warnings, ", result.Warnings)
 	writeln(cyan, ":speaker:%d recommendations.", result.Infos)
